@@ -245,7 +245,11 @@ class Expander:
             g = tg.repo[0]
             rets = [n for n in self.t.nodes_in(g, ast.Return) if n.value is not None]
             key = ("call", self.t.fkey(g))
-            small = len(rets) == 1 and len(list(self.t.nodes_in(g, ast.stmt))) <= 8 and not g.is_abstract
+            # small helpers are inlined; a helper with a few returns gives one alternative per return (flow-insensitive)
+            nstmts = len(list(self.t.nodes_in(g, ast.stmt)))
+            loops = list(self.t.nodes_in(g, (ast.For, ast.While, ast.Try)))
+            small = not g.is_abstract and ((len(rets) == 1 and nstmts <= 8) or (2 <= len(rets) <= 4 and nstmts <= 12 and not loops
+                                                                             and g.cls is None and g.name.startswith("_")))
             if small and key not in busy:
                 bound = self.t.bind_args(g, e)
                 env2: Dict[str, List[ast.expr]] = {}
@@ -260,7 +264,10 @@ class Expander:
                     env2.setdefault(p_.arg, [d])
                 for p_ in pos:
                     env2.setdefault(p_.arg, [ast.Name(id="<unbound:%s>" % p_.arg, ctx=ast.Load())])
-                return self._ex(rets[0].value, g, env2, depth - 1, busy | {key})
+                out_ = []
+                for r_ in rets:
+                    out_ += self._ex(r_.value, g, env2, depth - 1, busy | {key})
+                return out_[:MAX_ALT]
         # keep the call, canonical callee name, expanded arguments
         if tg.repo and not tg.by_name and len(tg.repo) == 1 and not isinstance(e.func, ast.Attribute):
             fn = [ast.Name(id=tg.repo[0].qname, ctx=ast.Load())]
